@@ -606,6 +606,107 @@ theorem orphan_completes_only_by_timeout (s : State) (op : Op) (hop : orphanOp o
   · subst e; simp [orphanOp] at hop
   · exact Or.inr (Or.inr e)
 
+/-- **never lost across restarts** (the lower bound for the orphans — what the spec monitor demands of the
+`restart` op): let the actor, after any life `lops` (crashes included), hold a request with a callback —
+instance `i` of the live object, deadline `d`: still registered, or already called back once — and crash outside an
+expiry scan.  Then at every later moment of every continuation `more` (whatever the new objects and the orphans do,
+however often the actor crashes again) that very object — the orphan with exactly the orphans of `lops` behind it —
+is still a one-object history, and unless its OWN id guard failed the request is still registered in its table, with its
+callback and deadline, or its callback has been invoked exactly once.  A restart never forgets a request silently:
+the orphan's timer (`exactly_once_despite_panics`, per incarnation) is what completes it. -/
+theorem orphan_request_never_lost (M : Nat) (lops : List LOp) (i d : Nat)
+    (hb : ∀ j rest, (lrun (Life.start M) lops).cur.base ≠ .inTick j rest)
+    (hl : (∃ id w, (id, w) ∈ (lrun (Life.start M) lops).cur.pending ∧ w.inst = i ∧ w.hasCb = true ∧ w.deadline = d) ∨
+      cbCount (lrun (Life.start M) lops).cur.log i = 1)
+    (more : List LOp) :
+    ∃ pre s post, (lrun (Life.start M) (lops ++ .crash :: more)).old = pre ++ s :: post ∧
+      post.length = (lrun (Life.start M) lops).old.length ∧
+      (∃ M' ops, s = run (init M' 0) ops) ∧
+      (s.collided = false →
+        (∃ id w, (id, w) ∈ s.pending ∧ w.inst = i ∧ w.hasCb = true ∧ w.deadline = d) ∨ cbCount s.log i = 1) := by
+  have hr := lrun_LReach lops _ (start_LReach M)
+  have e : lrun (Life.start M) (lops ++ .crash :: more) = lrun (lstep (lrun (Life.start M) lops) .crash) more := by
+    simp [lrun, List.foldl_append]
+  rw [e, crash_restart hb]
+  exact lrun_Tracked more _ ⟨[], unwound _, _, rfl, rfl, unwound_Reach hr.cur hb, fun _ => hl⟩
+
+/-- its hypotheses are satisfiable and the conclusion is the expected fact: request 0 (id 1, deadline 30000) is pending when
+the callback of request 1 crashes the actor; 31 s later the orphan's scan has called it back once and its table is empty -/
+example :
+    (lrun (Life.start 100) [.live (.issue true true true), .live (.issue true true true), .live (.response 2 (.ok (some 1)))]).cur.base = .inResp 1 ∧
+    (lrun (Life.start 100) [.live (.issue true true true), .live (.issue true true true), .live (.response 2 (.ok (some 1)))]).cur.pending.map
+      (fun e => (e.1, e.2.inst, e.2.hasCb, e.2.deadline)) = [(1, 0, true, 30000)] ∧
+    ((lrun (Life.start 100) ([.live (.issue true true true), .live (.issue true true true), .live (.response 2 (.ok (some 1)))] ++
+        .crash :: [.live (.advance 31000), .orphan 0 (.tick []), .orphan 0 .ret])).old.map
+      (fun s => (cbCount s.log 0, s.pending.length))) = [(1, 0)] := by decide
+
+/-! ### a stopped actor
+
+`ActorSystem.Root.Stop(pid)` (or `Poison`) delivers `*actor.Stopping` / `*actor.Stopped` to `Service.Receive`, which has
+no case for them — its `case *actor.Stop` never matches, `Stop` being a system message the actor context consumes — so
+`onStop` is unreachable and the run service is NOT stopped: the `Service` object lives on like an orphan whose mailbox
+is gone.  Every `ServiceResponse` is a dead letter from then on; the expiry timer, the callbacks and whatever they
+issue go on.  In the model that is a history without `response` ops (harness op `stop`, generated). -/
+
+/-- **a stopped actor completes only by the timeout**: in a continuation without `response` ops every completion
+that is new is the timeout — or the synchronous serialisation / no-route error of a call made after the stop (a
+fresh instance number).  No reply, remote error or decode error can complete anything any more. -/
+theorem stopped_completes_only_by_timeout (s : State) (more : List Op)
+    (hno : ∀ id p, Op.response id p ∉ more) (i id : Nat) (o : Outcome) (t : Nat)
+    (hin : Ev.cb i id o t ∈ (run s more).log) (hnew : Ev.cb i id o t ∉ s.log) :
+    o = .timeout ∨ ((o = .serErr ∨ o = .noService) ∧ s.ninst ≤ i) :=
+  run_new_cb_no_response more s hno i id o t hin hnew
+
+/-- **… and it still completes what was pending, exactly once, with the timeout**: a request registered with a
+callback when the actor is stopped (after any history `ops`); no response is processed afterwards (`mid`, `more`);
+once its deadline has passed (`mid`), more expiry scans start at free moments than there are table entries plus
+requests issued since (the fairness count of `exactly_once_despite_panics`; callbacks may panic).  Then its callback
+has been invoked exactly once, and every completion of that instance in the log is the timeout. -/
+theorem stopped_request_times_out (M n0 : Nat) (ops mid more : List Op) (id : Nat) (w : Wait)
+    (hm : (id, w) ∈ (run (init M n0) ops).pending) (hcb : w.hasCb = true)
+    (hno : ∀ id p, Op.response id p ∉ mid ++ more)
+    (hlate : w.deadline < (run (init M n0) (ops ++ mid)).now)
+    (hg' : (run (init M n0) ((ops ++ mid) ++ more)).collided = false)
+    (hscans : (run (init M n0) (ops ++ mid)).pending.length + reqIssues more <
+        freeScans (run (init M n0) (ops ++ mid)) more) :
+    cbCount (run (init M n0) ((ops ++ mid) ++ more)).log w.inst = 1 ∧
+    ∀ id' o t, Ev.cb w.inst id' o t ∈ (run (init M n0) ((ops ++ mid) ++ more)).log → o = .timeout := by
+  have hg1 : (run (init M n0) (ops ++ mid)).collided = false := by
+    rw [run_append] at hg'; exact not_collided_of_run hg'
+  have hg0 : (run (init M n0) ops).collided = false := by
+    rw [run_append] at hg1; exact not_collided_of_run hg1
+  have hwf0 := run_WF ops _ (init_WF M n0) hg0
+  have hwf1 := run_WF _ _ (init_WF M n0) hg1
+  have hl0 : Live (run (init M n0) ops) w.inst w.deadline := Or.inl ⟨id, w, hm, rfl, hcb, rfl⟩
+  have hl1 : Live (run (init M n0) (ops ++ mid)) w.inst w.deadline := by
+    rw [run_append] at hg1 ⊢
+    exact run_Live mid _ _ _ hwf0 hg1 hl0
+  refine ⟨?_, ?_⟩
+  · rw [run_append] at hg' ⊢
+    rcases run_scans more _ _ _ hwf1 hg' hl1 hlate with h | h
+    · exact h
+    · omega
+  · intro id' o t hin
+    have h0 : cbCount (run (init M n0) ops).log w.inst = 0 := hwf0.b.cbPend id w hm
+    have hnew : Ev.cb w.inst id' o t ∉ (run (init M n0) ops).log := by
+      intro h; have := cb_mem_count h; omega
+    have hlt := hwf0.b.instLt id w hm
+    rw [List.append_assoc, run_append] at hin
+    rcases run_new_cb_no_response (mid ++ more) _ hno _ _ _ _ hin hnew with h | ⟨_, h⟩
+    · exact h
+    · omega
+
+/-- their hypotheses are satisfiable and the conclusion is the expected fact: request 0 pending at the stop, the reply never
+processed, two scans after the deadline (the first one completes it, its callback retries), one completion: the timeout -/
+example :
+    ((run (init 100 0) [.issue true true true]).pending.map (fun e => (e.1, e.2.inst, e.2.hasCb, e.2.deadline))) = [(1, 0, true, 30000)] ∧
+    30000 < (run (init 100 0) ([.issue true true true] ++ [.advance 31000])).now ∧
+    (run (init 100 0) (([.issue true true true] ++ [.advance 31000]) ++ [.tick [], .issue true true true, .ret, .tick [], .tick []])).collided = false ∧
+    (run (init 100 0) ([.issue true true true] ++ [.advance 31000])).pending.length + reqIssues [.tick [], .issue true true true, .ret, .tick [], .tick []] <
+      freeScans (run (init 100 0) ([.issue true true true] ++ [.advance 31000])) [.tick [], .issue true true true, .ret, .tick [], .tick []] ∧
+    (run (init 100 0) (([.issue true true true] ++ [.advance 31000]) ++ [.tick [], .issue true true true, .ret, .tick [], .tick []])).log.filter
+      (fun e => match e with | .cb .. => true | _ => false) = [.cb 0 1 .timeout 31000] := by decide
+
 /-- **a reply crosses the restart** (the hazard, for EVERY history — the `decide`d witness below is one
 instance): let the old object, after any history `ops`, have a request registered under id 1 and crash
 outside a scan.  The first request the new object issues gets id 1 again (whatever `M`), and the reply
